@@ -11,9 +11,10 @@
   `CallPresent` obtained from the decidable closure check `certClosed`.
 
   α-renaming: `p` is the program AFTER `validateProg`'s renaming of source variables to the slots of
-  the real TEAL (`Check.renamedProg`; the bindings are checked to be a bijection).  Invariance of
-  `Src.runProg` under bijective renaming of variables is NOT proved here (nor in C01): the theorem
-  speaks about the renamed program.
+  the real TEAL (`Check.renamedProg`; the bindings are checked to be a bijection).  The theorems of
+  this file speak about the renamed program; invariance of `Src.runProg` under the renaming is
+  `Proofs/Rename.lean`, and the statements about the ORIGINAL program (under the additional decidable
+  hypothesis `Check.renameOk`) are `Proofs/CompileOriginal.lean`: `compile_correct_original_prog[_ref]`.
 -/
 import PyTealV.Proofs.C02Gen
 import PyTealV.Check.ComposeProg
